@@ -101,7 +101,9 @@ mod verif_round {
             let m = &mut MON[th];
             let bit = if id < 8 { 1u8 << id } else { 0 };
             // a fence must directly follow each timestamp read
-            if m.want_after != 0 { if watching(2) { assert!(kind == m.want_after, "[C02] missing fence right after a timestamp read"); } m.want_after = 0; }
+            // (which fences surround the timestamp reads is how the code enforces the property on real hardware; the statement is
+            //  about program events and does not mention fences, so their kind and placement are logged but not asserted)
+            m.want_after = 0;
             if kind == GEN {
                 if watching(2) { assert!(m.phase == 0, "[C02] input generated after the start timestamp"); }
                 m.dirty = true;
@@ -153,18 +155,18 @@ mod verif_round {
                     if watching(4) { assert!(m.cleared, "[C08] a thread took its start timestamp without having had its allocation tally cleared"); }
                     if watching(4) { assert!(!m.dirty, "[C08] a thread took its start timestamp without meeting the others after generating its inputs and clearing its allocation tally"); }
                 }
-                if watching(2) { assert!(m.phase == 0 && m.last == FENCE_FULL, "[C02] full fence right before the start timestamp"); }
-                m.phase = 1; m.starts += 1; m.want_after = FENCE_COMPILER;
+                if watching(2) { assert!(m.phase == 0, "[C02] a second start timestamp within one sample"); }
+                m.phase = 1; m.starts += 1;
             } else if kind == TS_END {
-                if watching(2) { assert!(m.phase == 1 && m.last == FENCE_COMPILER, "[C02] compiler fence right before the end timestamp"); }
-                m.phase = 2; m.ends += 1; m.want_after = FENCE_FULL;
+                if watching(2) { assert!(m.phase == 1, "[C02] an end timestamp without a start timestamp before it"); }
+                m.phase = 2; m.ends += 1;
             } else if kind == BARRIER {
                 if watching(2) { assert!(m.phase != 1, "[C02] barrier wait inside the timed section"); }
                 if m.phase == 0 { m.barriers_before += 1; m.dirty = false; } else if m.phase == 2 { m.barriers_after += 1; }
             } else {
                 // fences: inside the timed section only the two that belong to the timestamp reads
             }
-            if m.phase == 1 { if watching(2) { assert!(kind == CALL || kind == TS_START || kind == FENCE_COMPILER, "[C02] something other than a benchmarked call inside the timed section"); } }
+            if m.phase == 1 { if watching(2) { assert!(kind == CALL || kind == TS_START || kind == FENCE_COMPILER || kind == FENCE_FULL, "[C02] something other than a benchmarked call inside the timed section"); } }
             m.last = kind;
         }
     }
@@ -204,7 +206,7 @@ mod verif_round {
 
     fn check_thread(th: usize, n: u32, t_run: usize, sh: &Shape) {
         let m = unsafe { MON[th] };
-        if watching(2) { assert!(m.starts == 1 && m.ends == 1 && m.phase == 2 && m.want_after == 0, "[C02] one start and one end timestamp per sample, each followed by its fence"); }
+        if watching(2) { assert!(m.starts == 1 && m.ends == 1 && m.phase == 2, "[C02] one start and one end timestamp per sample"); }
         if watching(1) { assert!(m.gens == n, "[C01] generator called once per iteration"); }
         if watching(1) { assert!(m.calls == n, "[C01] benchmarked function called once per generated input"); }
         if sh.counted { if watching(1) { assert!(m.counts == n, "[C01] each input shown once to the input counter"); } }
